@@ -71,6 +71,9 @@ def check_if_simulated_instance_norm_is_used(
     bias_full_shape = bias_full.shape
     if not all(dim == 1 for dim in bias_full_shape[1:]):
         return False
+    # GroupNorm takes one gamma / beta per channel
+    if weight_full_shape[0] != input_x.shape[1] or bias_full_shape[0] != input_x.shape[1]:
+        return False
 
     adjusted_input_shape_const_value = adjusted_input_shape.const_value
 
